@@ -18,7 +18,16 @@ def main():
         for i in ids:
             p = os.path.join(V, "manifest.d", i + ".json")
             if os.path.exists(p):
-                checks.append(json.load(open(p)))
+                try:
+                    frag = json.load(open(p))
+                    assert frag["property_id"] == i
+                    for k in ("quick_cmd", "evidence_file", "level_claimed", "level_note"):
+                        assert k in frag, k
+                    assert frag["level_claimed"]["category"] in ("exploration", "fault_enumeration", "model_checking", "proof", "translation_validation", "other"), "bad category " + str(frag["level_claimed"].get("category"))
+                    assert "text" in frag["level_claimed"]
+                    checks.append(frag)
+                except Exception as e:  # an invalid fragment must never make MANIFEST.json invalid
+                    print("SKIPPING invalid fragment", p, repr(e))
         claimed = [c["property_id"] for c in checks]
         reasons = {}
         p = os.path.join(V, "manifest.d", "not_claimed.json")
